@@ -879,3 +879,24 @@ Proof.
   - intros e z Hi Hz. unfold ekeys in Hi. rewrite KE in Hi. unfold sF; simpl. rewrite TB4, TA4.
     apply (U e z); assumption.
 Qed.
+
+(* the meaning of Inv for the reports (also used by the directed model) *)
+Lemma Inv_reports_core s : Inv s ->
+  (forall n e, In e (mships s n) <-> In n (mems s e)) /\
+  (forall e n, In n (mems s e) -> In n (nkeys s) /\ In e (ekeys s)) /\
+  (forall n e, In e (mships s n) -> In e (ekeys s) /\ In n (nkeys s)) /\
+  (forall n, In n (nkeys s) <-> has n (h_nattr s) = true) /\
+  (forall e, In e (ekeys s) <-> has e (h_eattr s) = true) /\
+  NoDup (nkeys s) /\ NoDup (ekeys s) /\ NoDup (keys (h_nattr s)) /\ NoDup (keys (h_eattr s)).
+Proof.
+  intros (W & (K1 & K2 & K3 & K4) & (V1 & V2) & U).
+  assert (A : forall e n, In n (mems s e) -> In n (nkeys s) /\ In e (ekeys s)).
+  { intros e n H. split.
+    - apply W in H. eapply getl_nonempty_key. exact H.
+    - eapply getl_nonempty_key. exact H. }
+  split; [exact W|]. split; [exact A|]. split.
+  { intros n e H. apply W in H. destruct (A e n H). tauto. }
+  split. { intro n. rewrite has_In, K1. reflexivity. }
+  split. { intro e. rewrite has_In, K2. reflexivity. }
+  unfold nkeys, ekeys. rewrite K1, K2. auto 10.
+Qed.
